@@ -584,6 +584,32 @@ class _Group:
         self.members[name] = ds
         return ds
 
+    def require_dataset(self, name, shape=None, dtype=None, exact=False, data=None, **kw):
+        """h5py: open the dataset if it exists (its contents are kept, `data` is ignored), create it otherwise; an existing
+        dataset of another shape (or of a dtype that cannot be cast safely) is a TypeError"""
+        if name not in self.members:
+            return self.create_dataset(name, data=data, dtype=dtype, shape=shape, **kw)
+        ds = self.members[name]
+        if not isinstance(ds, _Dataset):
+            raise TypeError("Incompatible object (%s) already exists" % type(ds).__name__)
+        want = tuple(int(x) for x in (shape if isinstance(shape, (tuple, list)) else (shape,))) if shape is not None else None
+        if want is not None and tuple(ds.arr.shape) != want:
+            raise TypeError("Shapes do not match (existing %s vs new %s)" % (tuple(ds.arr.shape), want))
+        if dtype is not None and np._dt(dtype) != ds.arr._dt:
+            if exact or (ds.arr._dt, np._dt(dtype)) not in (("f4", "f8"), ("i8", "f8"), ("b", "i8"), ("b", "f8")):
+                raise TypeError("Datatypes cannot be safely cast (existing %s vs new %s)" % (ds.arr._dt, np._dt(dtype)))
+        return ds
+
+    def require_group(self, name):
+        if name in self.members:
+            return self.members[name]
+        return self.create_group(name)
+
+    def __delitem__(self, name):
+        if name not in self.members:
+            raise KeyError("Couldn't delete link (name doesn't exist)")
+        del self.members[name]
+
     def __getitem__(self, name):
         if name not in self.members:
             raise KeyError("Unable to open object (object '%s' doesn't exist)" % name)
@@ -614,6 +640,22 @@ class File(_Group):
             if path not in H5Store.files:
                 raise FileNotFoundError("Unable to open file (unable to open file: name = '%s')" % path)
             return H5Store.files[path]
+        if mode in ("a", "r+"):
+            if path in H5Store.files:
+                return H5Store.files[path]
+            if mode == "r+":
+                raise FileNotFoundError("Unable to open file (unable to open file: name = '%s')" % path)
+            f = object.__new__(cls)
+            _Group.__init__(f)
+            H5Store.files[path] = f
+            return f
+        if mode in ("w-", "x"):
+            if path in H5Store.files:
+                raise FileExistsError("Unable to create file (file exists)")
+            f = object.__new__(cls)
+            _Group.__init__(f)
+            H5Store.files[path] = f
+            return f
         raise ModelGap("h5py.File mode %r" % mode)
 
     def __init__(self, path, mode="r", **kw):
